@@ -243,7 +243,11 @@ def check_grids(res, tier):
 
     specs = [gridlab.tokamak_spec("lsn", extract=["regions", "meshmeta", "eqinfo"]),
              gridlab.tokamak_spec("ldn", extract=["regions", "meshmeta", "eqinfo"]),
-             gridlab.tokamak_spec("udn", extract=["regions", "meshmeta", "eqinfo"])]
+             gridlab.tokamak_spec("udn", extract=["regions", "meshmeta", "eqinfo"]),
+             # a slightly disconnected double null gridded as a connected one: the two separatrix values differ, every segment boundary
+             # must still be shared by the segments either side of it
+             gridlab.tokamak_spec("udn", options={"nx_inter_sep": 0}, extract=["regions", "meshmeta", "eqinfo"]),
+             gridlab.tokamak_spec("ldn", options={"nx_inter_sep": 0}, extract=["regions", "meshmeta", "eqinfo"])]
     if tier == "thorough":
         specs += [gridlab.tokamak_spec("cdn", extract=["regions", "meshmeta", "eqinfo"]),
                   gridlab.tokamak_spec("udn", options={"nx_inter_sep": 2, "psi_spacing_separatrix_multiplier": 0.5}, extract=["regions", "meshmeta", "eqinfo"]),
